@@ -1,4 +1,4 @@
-import ZbossModel.Proofs.HostTrace
+import ZbossModel.Proofs.HostAck
 /-! # C11 - any request reaches the NCP intact, fragments contiguous, each awaiting its ACK
 
 Phases `sendfrag … acked` are the transmission of a message: from taking the message lock M to
@@ -115,6 +115,55 @@ theorem C11_no_fragment_after_end (evs : List Ev) (pre post : List Out) (i f s n
   rw [hmid] at hmem
   have := (hfree _ hmem).2
   simp [isDoneOf] at this
+
+/-- **every scheduling order**: `MReach` closes the initial state under the immediate effect of any event and
+    under single micro-steps of *any* request task in *any* order (ready or not, repeated at will).  In every
+    such state - not only at the quiescent points of the FIFO run - at most one request is inside the
+    transmission of its message, and everything written so far is accepted by the message monitor -/
+theorem C11_any_schedule (hist : List Out) (st : St) (h : MReach hist st) :
+    (∀ r1 ∈ st.reqs, ∀ r2 ∈ st.reqs, inTransmit r1.phase = true → inTransmit r2.phase = true → r1 = r2) ∧
+    ∃ m, monRun none (hist ++ st.out) = some m := by
+  obtain ⟨⟨hinv, m, hm, _⟩, _⟩ := mreach_inv hist st h
+  refine ⟨?_, m, hm⟩
+  intro r1 h1 r2 h2 t1 t2
+  have a1 := (hinv.2 r1 h1).1 .M ((hinv.2 r1 h1).2.1 t1)
+  have a2 := (hinv.2 r2 h2).1 .M ((hinv.2 r2 h2).2.1 t2)
+  rw [a1] at a2
+  exact unique_of_id _ hinv.1 r1 r2 h1 h2 (by simpa using a2)
+
+/-- the deterministic machine (`step`: FIFO ready queue, each task run until it blocks) is one of those
+    schedules, so `C11_any_schedule` is not about an empty set of states -/
+theorem C11_run_is_a_schedule (evs : List Ev) :
+    ∃ hist, (runEvents {} evs).2.flatten = hist ++ (runEvents {} evs).1.out ∧ MReach hist (runEvents {} evs).1 :=
+  mreach_run evs
+
+/-- **each fragment only after the previous one was acknowledged or its wait expired - every schedule**: in any
+    state the event loop can be in (`MReach`), while some request is in its acknowledgement wait (frame written,
+    ACK not yet processed) no task micro-step of any request writes a data frame -/
+theorem C11_no_write_while_ack_pending (hist : List Out) (st : St) (h : MReach hist st) (r : Req) (hr : r ∈ st.reqs)
+    (ha : ackPhase r.phase = true) (i : Nat) : writes (runReq 1 st i).out = writes st.out :=
+  no_write_micro st i (mreach_inv hist st h).1.1 r hr ha
+
+/-- … and at event granularity, every history: if request `r` awaits an acknowledgement and the next event is
+    neither the matching ACK, nor the cancellation of `r`, nor a timer expiry that reaches `r`'s ACK deadline
+    (`KeepsWaiting`), then the whole step writes no data frame and `r` is still waiting afterwards.  So between
+    two data frames on the wire lies a matching ACK, an expired ACK wait or the cancellation of the sender. -/
+theorem C11_each_after_ack_or_expiry (evs : List Ev) (e : Ev) (r : Req) (hr : r ∈ (runEvents {} evs).1.reqs)
+    (hp : r.phase = .waitAck) (hk : KeepsWaiting (runEvents {} evs).1 r.id e) :
+    writes (step (runEvents {} evs).1 e).out = [] ∧
+    ∃ r' ∈ (step (runEvents {} evs).1 e).reqs, r'.id = r.id ∧ r'.phase = .waitAck := by
+  obtain ⟨hist, _, hb⟩ := both_reachable evs
+  have hw : AckW r.id (view (runEvents {} evs).1) := ⟨core r, List.mem_map.mpr ⟨r, hr, rfl⟩, rfl, hp⟩
+  obtain ⟨h1, c, hc, hj, hcp⟩ := no_write_while_waiting hist _ e r.id hb hw hk
+  obtain ⟨r', hr', rfl⟩ := List.mem_map.mp hc
+  exact ⟨h1, r', hr', hj, hcp⟩
+
+/-! ## non-vacuity: request 1 awaits the ACK of its first fragment; a wrong ACK, a response, a second request,
+    a close: nothing is written; the matching ACK releases the next fragment -/
+example : let st := (runEvents {} [.start 1 4 false 2 3013]).1
+    (∃ r ∈ st.reqs, r.id = 1 ∧ r.phase = .waitAck) ∧
+    (step st (.rxAck 1)).out = [] ∧ (step st (.start 2 4 false 1 5026)).out = [] ∧
+    (step st (.rxRsp 4)).out = [.wack] ∧ (step st (.rxAck 0)).out = [.write 1 1 1 2] := by decide +kernel
 
 /-! ## non-vacuity: a three-fragment request cancelled after its second fragment, then a two-fragment request:
     the log is accepted, the second message starts only after the first has ended -/
